@@ -77,6 +77,18 @@ def stmt_patterns(root):
         elif isinstance(s, LoopIR.If):
             # the docs say `if _:_` matches if statements; nothing is said about else branches
             add("if _: _", lambda x: isinstance(x, LoopIR.If))
+            # an explicit else clause in the pattern requires an else branch in the statement
+            add("if _:\n    _\nelse:\n    _", lambda x: isinstance(x, LoopIR.If) and len(x.orelse) > 0)
+            if s.orelse and len(s.orelse) == 1 and isinstance(s.orelse[0], (LoopIR.Assign, LoopIR.Reduce)):
+                et = _safe(stxt, s.orelse[0])
+                if et:
+                    add(f"if _:\n    _\nelse:\n    {et}",
+                        lambda x, et=et: isinstance(x, LoopIR.If) and len(x.orelse) == 1 and isinstance(x.orelse[0], (LoopIR.Assign, LoopIR.Reduce)) and _safe(stxt, x.orelse[0]) == et)
+            if s.body and len(s.body) == 1 and isinstance(s.body[0], (LoopIR.Assign, LoopIR.Reduce)) and s.orelse:
+                bt = _safe(stxt, s.body[0])
+                if bt:
+                    add(f"if _:\n    {bt}\nelse:\n    _",
+                        lambda x, bt=bt: isinstance(x, LoopIR.If) and len(x.orelse) > 0 and len(x.body) == 1 and isinstance(x.body[0], (LoopIR.Assign, LoopIR.Reduce)) and _safe(stxt, x.body[0]) == bt)
             c = _safe(ptxt, s.cond)
             if not s.orelse and c:
                 add(f"if {c}: _", lambda x, c=c: isinstance(x, LoopIR.If) and _safe(ptxt, x.cond) == c and not x.orelse)
@@ -415,7 +427,7 @@ def nav_laws(pr, root, stmts, out, bad):
     from exo.core.internal_cursors import InvalidCursorError
     from vf.menus import resolve, N, B
 
-    for path, s in stmts:
+    def laws_for(path, s):
         c = resolve(N(path), pr, {})
         attr, i = path[-1]
         ppath = path[:-1]
@@ -430,6 +442,12 @@ def nav_laws(pr, root, stmts, out, bad):
 
         def law(name, ok, **kw):
             out["nav"] += 1
+            if callable(ok):
+                try:
+                    ok = ok()
+                except Exception as ex:
+                    bad("nav-exception-" + name, cursor=str(path), exc=repr(ex)[:120])
+                    return
             if not ok:
                 bad("nav-" + name, cursor=str(path), **kw)
 
@@ -472,6 +490,13 @@ def nav_laws(pr, root, stmts, out, bad):
             cursor_path(full.after().anchor()) == expect_node(ppath + [(attr, len(sibs) - 1)]))
         it = [cursor_path(x) for x in full]
         law("block-iter", it == [expect_node(ppath + [(attr, k)]) for k in range(len(sibs))])
+
+    for path, s in stmts:
+        try:
+            laws_for(path, s)
+        except Exception as ex:
+            out["nav"] += 1
+            bad("nav-exception", cursor=str(path), exc=f"{type(ex).__name__}: {ex}"[:160])
 
 
 def run(rep):
